@@ -211,6 +211,7 @@ struct HPca : Harness {
       for (int k = 0; k < kmax && !o.violation; k++) {
         LVec vk = lcol(V, k);
         LD c = fabsl(ldot(P[k], vk)), sn = sqrtl(fmaxl(0, 1 - c * c));
+        if (!(c == c)) { char m[160]; snprintf(m, sizeof m, "loading %d of %d requested (rank %zu) is not finite", k, npc, rank); o.fail("non-finite-component", m); break; }
         { uint64_t pm = (uint64_t)(1000.0L * sn / tol.sin_angle[k]); if (pm > o.counters["max.permille_of_angle_tolerance_used"]) o.counters["max.permille_of_angle_tolerance_used"] = pm; }
         if (sn > tol.sin_angle[k]) { char m[260]; snprintf(m, sizeof m, "loading %d is not the %d-th principal axis: sin(angle) = %.3Lg, the documented criterion allows %.3g (eigenvalue ratio to the next %.3Lg)", k, k + 1, sn, tol.sin_angle[k], k + 1 < (int)ev.size() ? ev[k + 1] / ev[k] : 0.0L); o.fail("not-principal-axis", m); }
         LD want = ev[k] / tr * 100;
